@@ -77,14 +77,15 @@ fn eval(ctx: &Ctx, case: &Case) {
                 let mut out: Vec<u32> = Vec::new();
                 for s in sizes {
                     let n = *s;
+                    let zx = crate::engine::Xfer::new(z);
                     let (z2, part) = std::thread::spawn(move || {
-                        let mut z = z;
-                        let p = z.generate_keystream(n);
-                        (z, p)
+                        let mut zx = zx;
+                        let p = zx.get_mut().generate_keystream(n);
+                        (zx, p)
                     })
                     .join()
                     .expect("worker");
-                    z = z2;
+                    z = z2.into_inner();
                     out.extend(part);
                 }
                 out
